@@ -170,6 +170,11 @@ func NewFullRT(h host.Host, protocolPrefix protocol.ID, options ...Option) (*Ful
 	if err := dhtcfg.ApplyFallbacks(h); err != nil {
 		return nil, err
 	}
+	if dhtcfg.BucketSize <= 0 {
+		// The config is built by hand rather than from Defaults: without a
+		// BucketSize option GetClosestPeers would scan the table in steps of zero.
+		dhtcfg.BucketSize = amino.DefaultBucketSize
+	}
 
 	if err := dhtcfg.Validate(); err != nil {
 		return nil, err
